@@ -423,6 +423,17 @@ class P:
                 self.accept(",")
             self.eat("}")
             return ("match", scrut, arms)
+        if v == "|":
+            self.next()
+            ps = []
+            while not self.at("|"):
+                self.accept("&")
+                self.accept("mut")
+                ps.append(self.next()[1])
+                if not self.accept(","):
+                    break
+            self.eat("|")
+            return ("closure", ps, self.expr())
         if v == "return":
             self.next()
             e = None if (self.at(";") or self.at(",") or self.at("}")) else self.expr()
@@ -1049,6 +1060,18 @@ class Tr:
                 raise Unsupported(".get on a non-slice")
             b1, a1, _ = self.ex(f, recv[1][3][0], env, "usize")
             return b0 + b1, "(get_or_default %s %s)" % (paren(a0), paren(a1)), "u64"
+        if m in ("any", "all") and len(args) == 1 and args[0][0] == "closure" and len(args[0][1]) == 1 \
+                and recv[0] == "mcall" and recv[2] == "iter" and not recv[3]:
+            b0, a0, t0 = self.ex(f, recv[1], env)
+            if not (isinstance(t0, tuple) and t0[0] in ("slice", "arr")):
+                raise Unsupported(".iter() on a non-slice")
+            x = args[0][1][0]
+            env2 = dict(env)
+            env2[x] = (x, "u64")
+            bp, ap, tp = self.ex(f, args[0][2], env2, "bool")
+            if bp or tp != "bool":
+                raise Unsupported("closure body with checks")
+            return b0, "(%s (fun %s => %s) %s)" % ("existsb" if m == "any" else "forallb", x, ap, paren(a0)), "bool"
         br, ar, tr_ = self.ex(f, recv, env, want if m.startswith("wrapping_") else None)
         if m == "is_empty" and isinstance(tr_, tuple) and tr_[0] == "slice":
             return br, "(lenZ %s =? 0)" % paren(ar), "bool"
@@ -1767,6 +1790,13 @@ TARGETS = [
     ("src/bits.rs", UINT_IMPL, "not", "U.not", "g_not", "uint"),
     ("src/bits.rs", UINT_IMPL, "count_ones", "U.count_ones", "g_count_ones", "uint"),
     ("src/bits.rs", UINT_IMPL, "count_zeros", "U.count_zeros", "g_count_zeros", "uint"),
+    ("src/bits.rs", UINT_IMPL, "overflowing_shl", "U.overflowing_shl", "g_overflowing_shl", "uint"),
+    ("src/bits.rs", UINT_IMPL, "overflowing_shr", "U.overflowing_shr", "g_overflowing_shr", "uint"),
+    ("src/bits.rs", UINT_IMPL, "checked_shl", "U.checked_shl", "g_checked_shl", "uint"),
+    ("src/bits.rs", UINT_IMPL, "saturating_shl", "U.saturating_shl", "g_saturating_shl", "uint"),
+    ("src/bits.rs", UINT_IMPL, "wrapping_shl", "U.wrapping_shl", "g_wrapping_shl", "uint"),
+    ("src/bits.rs", UINT_IMPL, "checked_shr", "U.checked_shr", "g_checked_shr", "uint"),
+    ("src/bits.rs", UINT_IMPL, "wrapping_shr", "U.wrapping_shr", "g_wrapping_shr", "uint"),
     ("src/special.rs", UINT_IMPL, "is_power_of_two", "U.is_power_of_two", "g_is_power_of_two", "uint"),
     ("src/cmp.rs", "Ord for Uint<BITS, LIMBS>", "cmp", "U.cmp", "g_cmp", "uint"),
     ("src/div.rs", UINT_IMPL, "div_rem", "U.div_rem", "g_div_rem", "uint"),
